@@ -6,6 +6,7 @@ import Gv.Model.Fmt.Nexus
 import Gv.Model.Fmt.Partition
 import Gv.Proofs.PartitionRange
 import Gv.Proofs.StockholmOutcome
+import Gv.Proofs.PhylipOutcome
 /-!
 C03 — parsers terminate on every input with an error or a well-formed result.
 
@@ -321,5 +322,58 @@ theorem stockholm_outcome_fixed (o : POpts) (bs : List Byte) : Good (Stockholm.p
           · rename_i hl; exact loop_no_hang _ _ _ (by omega) hl
       · simp at hp
     · simp at hp
+
+/-! ## Phylip: a success is well formed, for ALL byte strings, both modes, single and multiple -/
+
+open Gv.Proofs.PhylipOutcome in
+/-- **Phylip (strict and relaxed, every option, with or without the allocation repair)**: whenever the
+model parser returns an alignment it is well formed — non-empty, at least one column, every row of the
+reported length, names pairwise distinct (the header declares at least one sequence and a non-zero
+length, the first block yields exactly that many rows, later blocks keep their number, and the final
+loop checks every length).
+Missing for the full C03 statement: the outcome is never `panic` / `hang` — false for the code as it is
+(`phylip_counterexample_alloc_panic`), open for the patched parser (fuel sufficiency of the block loops). -/
+theorem phylip_outcome_partial (af : Bool) (o : POpts) (bs : List Byte) :
+    match Phylip.parse af o bs with
+    | .ok (some a) => Spec.Fmt.wellFormed a.length a.rows = true
+    | _ => True := by
+  unfold Phylip.parse
+  cases h : Phylip.parseOne af o { inp := bs } with
+  | error e => cases e <;> simp [Phylip.toOutcome]
+  | ok v =>
+    obtain ⟨r, s'⟩ := v
+    cases r with
+    | aln a => simp only [Phylip.toOutcome]; exact parseOne_ok af o _ s' a h
+    | eos => simp [Phylip.toOutcome]
+    | slow => simp [Phylip.toOutcome]
+
+open Gv.Proofs.PhylipOutcome in
+/-- every alignment that `ParseMultiple` hands on is well formed -/
+theorem phylip_multi_wellformed (af : Bool) (o : POpts) : ∀ (fuel : Nat) (s : Phylip.St) (acc : List Aln),
+    (∀ a ∈ acc, Spec.Fmt.wellFormed a.length a.rows = true) →
+    match Phylip.parseMulti af o fuel s acc with
+    | .done als _ => ∀ a ∈ als, Spec.Fmt.wellFormed a.length a.rows = true
+    | _ => True := by
+  intro fuel
+  induction fuel with
+  | zero => intro s acc _; simp [Phylip.parseMulti]
+  | succ f ih =>
+    intro s acc hacc
+    unfold Phylip.parseMulti
+    cases h : Phylip.parseOne af o s with
+    | error e => cases e <;> simp [hacc] <;> exact hacc
+    | ok v =>
+      obtain ⟨r, s'⟩ := v
+      cases r with
+      | aln a =>
+        simp only
+        apply ih
+        intro x hx
+        simp only [List.mem_append, List.mem_singleton] at hx
+        cases hx with
+        | inl hx => exact hacc x hx
+        | inr hx => subst hx; exact parseOne_ok af o _ s' x h
+      | eos => simpa using hacc
+      | slow => simp
 
 end Gv.Props.C03
